@@ -551,6 +551,7 @@ pub fn dispatch(op: &[Value]) -> Result<Value, String> {
             Ok(json!([h, hi as u32, un as u32]))
         }
         "v_add_ids_only" => libmathcat::verif::interface::add_ids_only(&s(op, 1)).map(Value::String).map_err(e2s),
+        "v_key_command" => libmathcat::verif::navigate::key_command(n(op, 1), b(op, 2), b(op, 3), b(op, 4), b(op, 5)).map(Value::String).map_err(e2s),
         "v_canon_stage" => libmathcat::verif::interface::canonicalize_stage(&s(op, 1), &s(op, 2)).map(Value::String).map_err(e2s),
         "v_definitions_set" => Ok(json!(libmathcat::verif::canonicalize::definitions_set(&s(op, 1)))),
         "v_take_array_log" => Ok(json!(libmathcat::verif::speech::take_array_log())),
